@@ -102,6 +102,17 @@ def run(ctx):
             r.ok("set_progress: the throttle is consulted only when not at the maximum")
         else:
             r.fail(sp, thr[0].ast, norm(thr[0].ast), "the time throttle can return before the at-maximum draw is decided: the 100% frame may never be drawn")
+        # nothing but reaching the maximum goes around the throttle: a redraw that is not behind the throttle's "enough time has passed" edge
+        # is behind the step == max edge
+        passed = {e.id for c in thr for e in (cfg.false_of(c), cfg.true_of(c)) if e is not None and ((e.kind == "F" and isinstance(c.ast.ops[0], (ast.Lt, ast.LtE))) or (e.kind == "T" and isinstance(c.ast.ops[0], (ast.Gt, ast.GtE))))}
+        for d in disp_calls:
+            behind_throttle = any(cfg.dominates(x, d.id) for x in passed)
+            at_max = any(cfg.dominates(t.id, d.id) for t in max_t)
+            if behind_throttle or at_max:
+                r.ok("set_progress: %s %s" % (norm(d.ast), "behind the throttle" if behind_throttle else "only at the maximum"))
+            else:
+                r.fail(sp, d.ast, norm(d.ast) + " around the throttle", "a redraw in set_progress is reachable without passing the minimum-interval test and without the step being the maximum "
+                       "(some other condition was merged into the draw-regardless arm): redraws caused by advancing can come closer together than the configured minimum")
     else:
         r.note("no time throttle in set_progress")
 
@@ -221,6 +232,65 @@ def run(ctx):
                 r.ok("%s: %s depends only on the parameter" % (init.short, norm(n.ast)))
     if n7 == 0:
         r.fail(init, init.node, "throttle parameter not stored", "the constructor never stores its minimum-interval parameter in %s" % sorted(throttle_fields))
+
+    # ---------------------------------------------------------------- R9
+    r = ctx.rule("C16-R9", "TABLE", "a bar without a maximum never shows one: wherever a format is looked up by name in the table of named formats, the `<name>_nomax` variant is looked up "
+                 "first when the bar has no maximum", reference=1)
+    table_attr = next((a for a, v in pb.attrs.items() if isinstance(v, ast.Dict) and any(isinstance(k, ast.Constant) and isinstance(k.value, str) and k.value.endswith("_nomax") for k in v.keys)), None)
+    if table_attr is None:
+        r.vacuous_ok = True
+        r.note("no table of named formats with _nomax variants")
+    else:
+        n9 = 0
+        for name_, m in sorted(methods.items()):
+            subs = [n for n in walk_no_nested(m.node) if isinstance(n, ast.Subscript) and isinstance(n.ctx, ast.Load) and is_self_attr(n.value, table_attr) and not isinstance(n.slice, ast.Constant)]
+            plain_ = [x for x in subs if not any(isinstance(c, ast.Constant) and c.value == "_nomax" for c in ast.walk(x.slice))]
+            if not plain_:
+                continue
+            n9 += 1
+            variant = [x for x in subs if any(isinstance(c, ast.Constant) and c.value == "_nomax" for c in ast.walk(x.slice))]
+            cfg_ = ctx.cfg(m)
+            ok_ = False
+            for v_ in variant:
+                for vn in cfg_.nodes_of(v_):
+                    if guarded_by(cfg_, vn, lambda e: is_self_attr(e, "_max"), polarity=False, kill_names=lambda e: set()) is not None:
+                        ok_ = True
+            if ok_:
+                r.ok("%s: `%s` tried first when there is no maximum" % (m.short, norm(variant[0])))
+            else:
+                r.fail(m, plain_[0], "%s without the _nomax variant" % norm(plain_[0]), "%s looks a named format up as `%s` without trying its _nomax variant for a bar that has no maximum: the frame then shows "
+                       "`n/0` and a percentage, or a placeholder that cannot be computed raises" % (m.short, norm(plain_[0])))
+        if n9 == 0:
+            r.vacuous_ok = True
+
+    # ---------------------------------------------------------------- R10
+    r = ctx.rule("C16-R10", "SIBLING", "'the matching percentage': the step and the percentage are one state - every method that sets the step also sets the percentage on every path "
+                 "that follows (directly, or through a helper it always calls)", reference=3)
+    def writes_percent(m_, depth=0):
+        """CFG node ids of m_ that write self._percent, directly or by calling a self-helper that does so on all its paths"""
+        c_ = ctx.cfg(m_)
+        out = {n.id for n in c_.nodes if n.kind == "stmt" and isinstance(n.ast, (ast.Assign, ast.AugAssign)) and any(is_self_attr(t, "_percent") for t in (n.ast.targets if isinstance(n.ast, ast.Assign) else [n.ast.target]))}
+        if depth < 2:
+            for call in q.calls(m_):
+                if isinstance(call.func, ast.Attribute) and isinstance(call.func.value, ast.Name) and call.func.value.id == "self" and call.func.attr in methods and methods[call.func.attr] is not m_:
+                    h = methods[call.func.attr]
+                    hc = ctx.cfg(h)
+                    hw = writes_percent(h, depth + 1)
+                    if hw and hc.post_dominated_by(hc.entry.id, hw):
+                        out |= {n.id for n in c_.nodes_of(call)}
+        return out
+    for name_, m in sorted(methods.items()):
+        c_ = ctx.cfg(m)
+        step_w = [n for n in c_.nodes if n.kind == "stmt" and isinstance(n.ast, (ast.Assign, ast.AugAssign)) and any(is_self_attr(t, "_step") for t in (n.ast.targets if isinstance(n.ast, ast.Assign) else [n.ast.target]))]
+        if not step_w:
+            continue
+        pw = writes_percent(m)
+        bad = [w for w in step_w if not (pw and (c_.post_dominated_by(w.id, pw) or any(c_.dominates(x, w.id) for x in pw)))]
+        if bad:
+            r.fail(m, bad[0].ast, "%s sets the step without the percentage" % name_, "%s assigns self._step (%s) on a path that does not assign self._percent: the next frame shows the new step with the old percentage "
+                   "(e.g. 0/10 at 50%% after a restart)" % (m.short, norm(bad[0].ast)))
+        else:
+            r.ok("%s: step and percentage set together" % m.short)
 
     # ---------------------------------------------------------------- R8
     from .c15 import section_order_rule
